@@ -47,6 +47,7 @@ type interpreter struct {
 	eng                *Engine
 	depth              int
 	initDone           map[*ssa.Package]bool
+	writtenGlobals     map[*ssa.Global]bool
 }
 
 func mustDeref(t types.Type) types.Type {
@@ -158,6 +159,9 @@ func visitInstr(fr *frame, instr ssa.Instruction) continuation {
 		// no-op
 
 	case *ssa.UnOp:
+		if g, ok := instr.X.(*ssa.Global); ok && instr.Op == token.MUL {
+			fr.i.checkGlobalRead(g)
+		}
 		fr.env[instr] = fr.unop(instr, fr.get(instr.X))
 
 	case *ssa.BinOp:
@@ -213,6 +217,9 @@ func visitInstr(fr *frame, instr ssa.Instruction) continuation {
 		ex.sched.chanSend(fr.get(instr.Chan).(*channel), fr.get(instr.X))
 
 	case *ssa.Store:
+		if g, ok := instr.Addr.(*ssa.Global); ok {
+			fr.i.writtenGlobals[g] = true
+		}
 		addr := fr.get(instr.Addr).(*value)
 		if addr == nil {
 			panic(runtimeError("invalid memory address or nil pointer dereference"))
@@ -300,6 +307,9 @@ func visitInstr(fr *frame, instr ssa.Instruction) continuation {
 		fr.env[instr] = fr.get(instr.Iter).(iter).next()
 
 	case *ssa.FieldAddr:
+		if g, ok := instr.X.(*ssa.Global); ok {
+			fr.i.checkGlobalRead(g)
+		}
 		p := fr.get(instr.X).(*value)
 		if p == nil {
 			panic(runtimeError("invalid memory address or nil pointer dereference"))
@@ -310,6 +320,9 @@ func visitInstr(fr *frame, instr ssa.Instruction) continuation {
 		fr.env[instr] = fr.get(instr.X).(structure)[instr.Field]
 
 	case *ssa.IndexAddr:
+		if g, ok := instr.X.(*ssa.Global); ok {
+			fr.i.checkGlobalRead(g)
+		}
 		x := fr.get(instr.X)
 		idx := fr.get(instr.Index)
 		switch x := x.(type) {
